@@ -8,3 +8,6 @@ import Theorems.C02
 #print axioms C02.syndrome_decoder_instances
 #print axioms C02.hamming_inverse_corrects
 #print axioms C02.ml_corrects_large
+#print axioms C02.bm_reduction
+#print axioms C02.bm_light_small
+#print axioms C02.bm_corrects_small
